@@ -25,6 +25,13 @@ BASES = collections.OrderedDict([
     ("tdm", "name a\nversion 1.0\ntype tdm (temporal_modes=2)\n\nfloat array p0 =\n    0.5, 1.5\nfloat x = 0.25\nSgate(p0, x) | 1\nMeasureHomodyne(phi=p0) | 0\n"),
     ("minimal", "name a\nversion 1.0\nG | 0\n"),
     ("array-last", "name a\nversion 1.0\n\nG | 0\nint array A =\n    1, 2\n    3, 4\n"),
+    # a script with include lines: only meaningful through the file interface (the included file lies next to the working file)
+    ("include", "name a\nversion 1.0\ntarget g (shots=3)\ninclude \"c18lib.xbb\"\ninclude \"c18lib2.xbb\"\n\nfloat x = 0.5\nSub(t=x) | [2, 0]\nG(x) | 1\nSub2 | [1, 4]\n"),
+])
+FILE_ONLY = ("include",)
+LIBS = collections.OrderedDict([
+    ("c18lib.xbb", "name Sub\nversion 1.0\n\nint n = 2\nBS({t}, n) | [0, 1]\nfor int i in 0:2\n    R(i) | i\n"),
+    ("c18lib2.xbb", "name Sub2\nversion 1.0\ninclude \"c18lib.xbb\"\nK | 0\nSub(t=1) | [0, 3]\n"),
 ])
 
 
@@ -148,21 +155,53 @@ def restyle(text, nl, tab, final):
 STYLES = [(nl, tab, final) for nl in ("\n", "\r\n", "\r") for tab in (False, True) for final in (True, False)]
 
 
-def digest_file(text):
+_LIBS_WRITTEN = set()
+
+
+def workdir():
+    """one directory per worker process (the included files in it are rewritten by the lib: cases)"""
+    import os
+    import tempfile
+    if common.SCRATCH is None or not os.path.isdir(common.SCRATCH):
+        common.SCRATCH = tempfile.mkdtemp(prefix="bbv-files-")
+    d = os.path.join(common.SCRATCH, "c18w%d" % os.getpid())
+    os.makedirs(d, exist_ok=True)
+    return d
+
+
+def write_libs(force=False):
+    import os
+    for n, t in LIBS.items():
+        q = os.path.join(workdir(), n)
+        if force or (q, os.getpid()) not in _LIBS_WRITTEN or not os.path.exists(q):
+            with open(q, "w", encoding="utf-8", newline="") as f:
+                f.write(t)
+            _LIBS_WRITTEN.add((q, os.getpid()))
+
+
+def digest_file(text, lib=None):
     """the same through the file interface: the text is written into the worker's working file and load()ed"""
     import os
     import tempfile
     import blackbird
-    if common.SCRATCH is None or not os.path.isdir(common.SCRATCH):
-        common.SCRATCH = tempfile.mkdtemp(prefix="bbv-files-")
-    path = os.path.join(common.SCRATCH, "c18-%d.xbb" % os.getpid())
+    path = os.path.join(workdir(), "c18-%d.xbb" % os.getpid())
+    if lib is None:
+        write_libs()
+    else:
+        # the variant text is that of an included file; the main script is the unchanged base
+        with open(os.path.join(workdir(), lib), "w", encoding="utf-8", newline="") as f:
+            f.write(text)
+        text = BASES["include"]
     with open(path, "w", encoding="utf-8", newline="") as f:
         f.write(text)
     observe.reset_tables()
     try:
         p = blackbird.load(path)
     except Exception as e:  # noqa
-        return ("EXC", type(e).__name__, str(e).replace(path, "<FILE>").replace(common.SCRATCH, "<D>")[:100])
+        return ("EXC", type(e).__name__, str(e).replace(path, "<FILE>").replace(workdir(), "<D>").replace(common.SCRATCH, "<D>")[:100])
+    finally:
+        if lib is not None:
+            write_libs(force=True)
     return repr(observe.prog_canon(p, exact=True, variables=True))
 
 
@@ -184,7 +223,10 @@ def header(n):
 @common.guarded("C18")
 def _case(c):
     name, text, ref = c
-    d = digest_file(text) if name.startswith("file:") else digest(text)
+    if name.startswith("lib:"):
+        d = digest_file(text, lib=name.split(":")[1])
+    else:
+        d = digest_file(text) if name.startswith("file:") else digest(text)
     if d == ref:
         return None
     if isinstance(d, tuple):
@@ -199,8 +241,9 @@ def run(ctx):
     skipped = 0
     per_kind = collections.Counter()
     not_loading = []
+    common.SCRATCH = ctx.scratch
     for name, base in BASES.items():
-        ref = digest(base)
+        ref = digest_file(base) if name in FILE_ONLY else digest(base)
         if isinstance(ref, tuple):
             # a base script that does not load cannot anchor a metamorphic comparison; that it is rejected at all is
             # C02's / C10's subject (both enumerate such scripts) - it is counted, not reported here
@@ -255,13 +298,33 @@ def run(ctx):
                 cases.append((name, var, ref))
                 meta.append((name, "pair:" + e1[0].split(":")[0] + "+" + e2[0].split(":")[0], "directly-after-for-header" if "directly-after-for-header" in (e1[2], e2[2]) else (e1[2] or e2[2]), STYLES[0]))
                 per_kind["pair"] += 1
+    # bases with include lines go through the file interface only
+    cases = [(("file:" + c[0]) if c[0] in FILE_ONLY else c[0], c[1], c[2]) for c in cases]
+    per_kind["include-base"] = sum(1 for c in cases if c[0] == "file:include")
+    # the layout of the INCLUDED files: every single edit x every style of each included file, main script unchanged
+    iref = digest_file(BASES["include"])
+    if not isinstance(iref, tuple):
+        for lib, ltext in LIBS.items():
+            for kind, site, feat, var in single_edits(ltext):
+                if var is None:
+                    continue
+                for st in (STYLES if (kind != "space" or ctx.quick is False) else [STYLES[0], STYLES[5], STYLES[10]]):
+                    cases.append(("lib:" + lib, restyle(var, *st), iref))
+                    meta.append(("include", "included-file:" + kind, feat, st))
+                    per_kind["included-file"] += 1
+            for st in STYLES:
+                for pre in ("", "\n", "# c\n", "\n\n# c\n \n"):
+                    cases.append(("lib:" + lib, restyle(pre + ltext, *st), iref))
+                    meta.append(("include", "included-file:style", "", st))
+                    per_kind["included-file"] += 1
     # the file interface: every style-only, before-metadata, header-size and own-line-comment variant also through load()
     for (name, text, ref), m in list(zip(cases, meta)):
+        if name.startswith(("file:", "lib:")):
+            continue
         if m[1] in ("style-only", "lines-before-metadata", "header-size") or m[1].startswith("comment-content:own-line"):
             cases.append(("file:" + name, text, ref))
             meta.append((name, "file-route:" + m[1], m[2], m[3]))
             per_kind["file-route"] += 1
-    common.SCRATCH = ctx.scratch
     res = pool.pmap(_case, cases, chunk=100)
     distinct = set()
     for (name, text, ref), m, r in zip(cases, meta, res):
@@ -281,7 +344,7 @@ def run(ctx):
     cov = {"evaluations": len(cases), "distinct_nontrivial": len(distinct - set(BASES.values())),
            "rule": "%d base scripts covering every rule that mentions NEWLINE or TAB; edits at EVERY site: spaces at each intra-line token boundary and line end set to 1/2/3 (kept only if the reference tokenizer confirms an unchanged token sequence; "
                    "boundaries next to indentation excluded), 3 kinds of trailing comment on each line, %d comment texts (trailing backslash, quotes, statements, keywords, parameters, non-ASCII, other line-boundary characters) trailing on each line and on lines of their own, 5 kinds of inserted line before each line and at end of file (not inside array bodies); x 12 global styles (LF/CRLF/CR x tab/4 spaces x final newline or not) "
-                   "(quick: 3 styles for spacing edits); blank/comment lines before the metadata; comment/blank headers of exactly n characters for n around 2048 / 4096 / 8192 and up to 20000; the style-only, before-metadata, header and own-line-comment variants also through the file interface (load() of one working file per worker); pairs of line edits on the short bases. non-trivial = variant text differs from the base; distinct by text" % (len(BASES), len(COMMENT_TEXTS)),
+                   "(quick: 3 styles for spacing edits); blank/comment lines before the metadata; comment/blank headers of exactly n characters for n around 2048 / 4096 / 8192 and up to 20000; the style-only, before-metadata, header and own-line-comment variants also through the file interface (load() of one working file per worker); pairs of line edits on the short bases; one base with two include lines (nested include, template call) run through load() only, with every edit x style applied to the main script and, separately, to each included file. non-trivial = variant text differs from the base; distinct by text" % (len(BASES), len(COMMENT_TEXTS)),
            "samples": [repr(c[1]) for c in common.sample(cases, 4)], "exhaustive": True, "by_edit_kind": dict(per_kind), "base_scripts_not_loading": not_loading, "spacing_edits_skipped_token_change": skipped}
     return {"coverage": cov, "violations": Vs.records(),
             "assumptions": ["a comment line indented by a tab or four spaces produces a TAB token: next to indentation, excluded by the property, not generated", "digest = exact canonical program content incl. variables"]}
@@ -315,6 +378,10 @@ def compose(base, e1, e2):
 
 
 def replay(case):
-    base = BASES[case["base"].replace("file:", "")]
-    r = _case((case["base"], case["text"], digest(base)))
+    bname = case["base"].replace("file:", "")
+    if bname.startswith("lib:") or bname in FILE_ONLY:
+        ref = digest_file(BASES["include"])
+    else:
+        ref = digest(BASES[bname])
+    r = _case((case["base"], case["text"], ref))
     return (r is not None), repr(r)[:300]
